@@ -52,3 +52,7 @@ CHECKS['C06'] = ('model_checking',
     'reference-model conformance by bounded exhaustive enumeration: 8 hand-written grammars (retry after backtracking, @nomemo, parameters, named, lookahead+closure, alias, Python-keyword rule names, left recursion) x all inputs up to length 4/5 x the complete semantics menu (none, identity, _default only, tagging with call log, FailedSemantics on every (rule, value) predicate, 10 exception types raised from each rule, declared parameters) on model and generated parser; plus every C01 expression that calls helper rules x {none, identity, tagging}; the reference evaluator runs the actions as call-backs without memoisation and yields the expected value and call multiset',
     'trusted: the reference evaluator; the implementation may call an action fewer times than the memo-less reference but at least once per distinct successful (rule, position), and exactly as often for @nomemo rules',
     'explicit enumeration of programs x inputs x semantics objects against a reference model, every model trace replayed on the implementation')
+CHECKS['C08'] = ('exploration',
+    'bounded exhaustive enumeration: 19 grammars (core language, every @meta, $->, skip-to, named, left recursion, lookaheads, upper-case rules, whitespace variants incl. an empty-matching pattern, constants/alerts, joins) x ALL strings of length <= 3/4 over a 12-character hostile alphabet plus targeted numeric/boolean/unicode inputs x {str, Buffer} x parseinfo on/off; and the complete single-edit neighbourhood (deletions, 31 metacharacter insertions per position, transpositions) of 8 seed grammars as compile input; every outcome must be a value or a TatSu exception with a consistent, renderable location, under a watchdog',
+    'trusted: watchdog (3 s parse / 20 s compile) and the interpreter recursion limit as observers of non-termination; the independent line splitter for locations',
+    'exhaustive enumeration of bounded input spaces and complete edit neighbourhoods (fault enumeration on inputs)')
